@@ -8,9 +8,12 @@ EXTENDS Node, Json, IOUtils, TLCExt
 
 CONSTANTS Focus
 Traces == JsonDeserialize(IOEnv.TRACE_FILE)
-VARIABLES tid, l, done, txd, unval     \* txd: observed transactions by id; unval: blocks applied without validation (bulk download)
+VARIABLES tid, l, done, txd, unval,    \* txd: observed transactions by id; unval: blocks applied without validation (bulk download)
+          arr, arrOrd                  \* the tree of blocks that ARRIVED (parents before children), whatever the node did with them: used for
+                                       \* C04 on runs in which every offered block is fully valid by construction (trace field all_valid)
 tv == << blocks, order, utxo, byHeight, tips, head, lastValid, pool, chainT, locT, outT, inT, buffer, txnOpen,
-         outbox, active, miner, tid, l, done, txd, unval >>
+         outbox, active, miner, tid, l, done, txd, unval, arr, arrOrd >>
+AllValid == "all_valid" \in DOMAIN Traces[tid] /\ Traces[tid].all_valid
 Ev == Traces[tid].events
 ToBlk(jb) == [id |-> jb.id, parent |-> jb.parent, height |-> jb.height, ts |-> jb.ts,
               target |-> jb.target, powok |-> Less(jb.idb, jb.target),
@@ -81,6 +84,9 @@ StepBlock(e) ==
   IN \* the spec state follows the *implementation's* outcome where that outcome is explainable
      /\ UNCHANGED << miner, tid >>
      /\ txd' = txd
+     /\ IF b.id \notin DOMAIN arr /\ b.parent \in DOMAIN arr
+        THEN arr' = (b.id :> [parent |-> b.parent, height |-> b.height]) @@ arr /\ arrOrd' = Append(arrOrd, b.id)
+        ELSE UNCHANGED << arr, arrOrd >>
      /\ IF accepted /\ CanApply(b)
         THEN /\ Store(b)
              /\ lastValid' = IF e.irt = 0 \/ b.height % IbdSkip = 0 THEN CSPrimed ELSE lastValid
@@ -101,7 +107,9 @@ StepBlock(e) ==
               ELSE /\ buffer' = buf /\ UNCHANGED << chainT, locT, outT, inT, txnOpen >>
         /\ LET c13 == C13Clause(p, prePool, p.head # head)
                \* C04 on the delivery path (arrivals include repeated deliveries): evaluated when the served set is what the ledger holds
-               c4 == IF "C04" \notin Focus \/ served # DOMAIN blocks' THEN ""
+               c4 == IF "C04" \in Focus /\ AllValid /\ p.head # FirstSeenBest(arr', arrOrd')
+                     THEN "C04:head_is_not_the_first_seen_block_of_greatest_height_among_the_valid_blocks_that_arrived"
+                     ELSE IF "C04" \notin Focus \/ served # DOMAIN blocks' THEN ""
                      ELSE IF p.head # FirstSeenBest(blocks', order') THEN "C04:head_not_first_seen_of_greatest_height"
                      ELSE IF SetOf(p.tips) # Childless(blocks') THEN "C04:tips_not_exactly_childless_blocks"
                      ELSE ""
@@ -132,7 +140,7 @@ StepTx(e) ==
              ELSE ""
       c9 == IF Focus \cap {"C09", "C13", "C20"} # {} /\ (SetOf(p.served) # DOMAIN blocks \/ p.head # head \/ RowIds(p) # S!Ids(chainT))
             THEN "C13:transaction_submission_changed_chain_state_or_store" ELSE ""
-  IN /\ UNCHANGED << blocks, order, utxo, byHeight, tips, head, lastValid, storeVars, miner, tid, unval >>
+  IN /\ UNCHANGED << blocks, order, utxo, byHeight, tips, head, lastValid, storeVars, miner, tid, unval, arr, arrOrd >>
      /\ txd' = (t.id :> t) @@ txd
      /\ pool' = IF PoolKnown(p) THEN PoolOf(p) ELSE pool
      /\ active' = active \cap stillOpen
@@ -172,7 +180,7 @@ StepMine(e) ==
         ELSE IF \E q \in active \cap stillOpen : BlockMsgs(p, q, b.id) # 1 THEN "C12:found_block_not_broadcast_exactly_once"
         ELSE ""
       inState == b.id \in served
-  IN /\ UNCHANGED << tid, miner, unval >>
+  IN /\ UNCHANGED << tid, miner, unval, arr, arrOrd >>
      /\ txd' = txd
      \* the served state after a found block is the miner's snapshot + the block: blocks the network thread added since the
      \* snapshot are dropped from the served state (they stay in the store) -- followed here so that later events are judged
@@ -202,13 +210,14 @@ StepMine(e) ==
 
 (* ---- the miner's request handler raised while assembling a candidate from (served state, pending transactions) ---- *)
 StepMineFailed(e) ==
-  /\ UNCHANGED << tid, miner, unval, txd, pool, active, outbox, lastValid >> /\ UNCHANGED storeVars /\ SetCS(CSV)
+  /\ UNCHANGED << tid, miner, unval, txd, pool, active, outbox, lastValid, arr, arrOrd >> /\ UNCHANGED storeVars /\ SetCS(CSV)
   /\ IF "C12" \in Focus THEN Out("C12:miner_cannot_assemble_a_candidate_from_its_head_and_the_pending_transactions") /\ done' = TRUE /\ l' = l
      ELSE /\ l' = l + 1 /\ done' = (l + 1 > Len(Ev)) /\ ((l + 1 > Len(Ev)) => Out("ok"))
 
 TInit == /\ tid \in 1..Len(Traces) /\ l = 1 /\ done = FALSE
          /\ NInit(ToBlk(Traces[tid].genesis), SetOf(Traces[tid].peers))
          /\ txd = [x \in {} |-> 0] /\ unval = {}
+         /\ arr = (Traces[tid].genesis.id :> [parent |-> Traces[tid].genesis.parent, height |-> 0]) /\ arrOrd = << Traces[tid].genesis.id >>
 TNext == /\ ~done /\ l <= Len(Ev)
          /\ LET e == Ev[l] IN
             CASE e.op = "block" -> StepBlock(e)
